@@ -615,7 +615,7 @@ def run_batch(prop: str, sim_name: str, tier: str, cfg: dict, meta: dict):
             "logical_steps": steps,
             "fault_counts": dict(sorted(faults.items())),
             "probes": dict(sorted(probes.items())),
-            "probes_at_zero": sorted(p for p in meta.get("expected_probes", []) if not probes.get(p)),
+            "probes_at_zero": sorted(p for p in meta.get("expected_probes", []) if not probes.get(p) and p not in cfg.get("probes_not_expected", ())),
             "distinct_states": len(states),
             "state_measure": meta.get("state_measure", ""),
             "components": meta.get("components", {}),
